@@ -4,3 +4,5 @@ pub mod states;
 pub mod registries;
 pub mod mirror;
 pub mod defrag;
+pub mod sweep;
+pub mod targets;
